@@ -73,6 +73,14 @@ def annotated(a: int, b, c: Optional[str] = None) -> int:
     return a
 
 
+def p1(d):
+    return d
+
+
+def p2(d):
+    return d
+
+
 not_a_function = 3
 
 
